@@ -9,7 +9,7 @@ from ref import httpstrict as S
 
 PROP = "C27"
 # per batch: client fault cases, server vanish cases, max-connection cases
-SIZES = dict(quick=(1, 1200, 250, 80), thorough=(50, 1200, 250, 80))
+SIZES = dict(quick=(1, 1000, 220, 70), thorough=(50, 1000, 220, 70))
 RULE = ("client: 1-5 queued requests (GET/POST, equal wire length) on one evhttp_connection with retries 0-3 and timeouts against a scripted raw "
         "server: refusal, close/reset/half-close after byte i of a request or byte k of a response (sampled in quick, every i and k for the small "
         "exchanges in thorough), stall until the virtual timeout, close after the response, junk, double responses, injected readv/writev errors, "
@@ -121,6 +121,25 @@ def judge_client(meta, ev, st):
                 out.append((_k("request-never-completed"), "%s: no completion callback by the end of the case" % desc))
         elif ec and ec[0][1][-1] == "err=" + CANCEL_ERR:
             out.append((_k("cancel-error-without-cancel"), "%s: REQUEST_CANCEL reported but nobody cancelled" % desc))
+    # Witness class of a deviation already known in the tree: evhttp_cancel_request of a still queued request from
+    # inside a completion callback that evhttp_connection_cb_cleanup is running (connect failed for good; such
+    # callbacks get a non-NULL request with response code 0).  The queue is corrupted; what follows in the case
+    # (lost request, leak) is reported under that specific key.
+    cleanup_cancel = False
+    last_cb = None
+    for i, e in enumerate(ev):
+        if e[0] in ("ccb", "ecb", "kcb", "hcb"):
+            last_cb = e
+        elif e[0] in ("tick", "drained", "mk") and not (e[0] == "mk"):
+            last_cb = None
+        elif e[0] == "cancel" and e[2] == "begin" and e[3] == "incb" and last_cb is not None:
+            if last_cb[0] == "ccb" and "code=0" in last_cb and last_cb[-1] != "null":
+                cleanup_cancel = True
+    if cleanup_cancel:
+        out = [(_k("cancel-in-connect-failure-callback:" + k.split(":", 1)[1]) if k.split(":", 1)[1].split(":")[0] in
+                ("request-never-completed", "not-settled-after-40-timer-steps") else k, t) for k, t in out]
+        st["cancel_in_cleanup_callback"] = st.get("cancel_in_cleanup_callback", 0) + 1
+    meta["_cleanup_cancel"] = cleanup_cancel
     for rid in list(ccb) + list(ecb) + list(other):
         if rid not in made:
             out.append((_k("callback-for-unmade-request"), "callback for request %d that was never made" % rid))
@@ -234,7 +253,7 @@ def judge(meta, ev, st):
     out = {"client": judge_client, "server": judge_server, "maxconn": judge_maxconn}[kind](meta, ev, st)
     census = [e for e in ev if e[0] == "census"]
     if census and census[0][1] != "0":
-        out.append((_k("leak-at-case-end:" + kind), "memfault census: %s blocks (%s bytes) still live after everything was freed" % (census[0][1], census[0][2])))
+        out.append((_k(("cancel-in-connect-failure-callback:" if meta.get("_cleanup_cancel") else "") + "leak-at-case-end:" + kind), "memfault census: %s blocks (%s bytes) still live after everything was freed" % (census[0][1], census[0][2])))
     st["cases_" + kind] = st.get("cases_" + kind, 0) + 1
     for e in ev:
         if e[0] == "pact":
@@ -278,7 +297,7 @@ def run(tier, seed):
     vlib.build("asan", ["h_httpmsg"])
     nb, ncli, nsrv, nmax = SIZES[tier]
     st = {}
-    seenkeys = {}
+    conf = G.Confirmer(res, PROP, judge)
     total = 0
     batches = []
     for b in range(nb):
@@ -299,6 +318,7 @@ def run(tier, seed):
             cases = enum[b:b + 2400]
             st["enumerated_fault_points"] = st.get("enumerated_fault_points", 0) + len(cases)
         traces = G.run_batch(res, PROP, cases, bi)
+        found = []
         for cs_ in cases:
             ev = traces.get(cs_.id, [])
             if not ev or ev[-1][0] != "end":
@@ -307,13 +327,12 @@ def run(tier, seed):
             v = judge(cs_.meta, ev, st)
             res.hashes.add(G.case_hash(cs_))
             for key, text in v:
-                if seenkeys.get(key, 0) < 3:
-                    seenkeys[key] = seenkeys.get(key, 0) + 1
-                    res.add_viol(key, text + " | case %d kind=%s" % (cs_.id, cs_.meta["kind"]),
-                                 dict(flavor="asan", harness="h_httpmsg", payload=dict(script=cs_.text(), meta=cs_.meta)))
+                found.append((cs_, key, text + " | kind=%s" % cs_.meta["kind"]))
                 st["violating_cases"] = st.get("violating_cases", 0) + 1
             if len(res.samples) < 4 and bi == 0 and cs_.id % 487 == 3:
                 res.samples.append(dict(script=cs_.text()[:1500], kind=cs_.meta["kind"]))
+        conf.report(bi, found)
+    st["unreproduced_on_rerun"] = conf.unreproduced
     for k, v in st.items():
         res.add_stat(k, v)
     res.evaluations = total
@@ -335,7 +354,7 @@ REG = dict(category="fault_enumeration",
                 "scripted raw-socket server that refuses, resets, half-closes or closes at chosen byte offsets of request and response, stalls, sends junk "
                 "or extra responses, plus injected readv/writev errors and 1-byte I/O; user cancels / frees the connection / stops the loop at callback "
                 "points; server side with vanishing raw clients, held and chunked replies, and max_connections overflow. Oracle: per-request callback "
-                "counts and ordering from the trace, wire-level response counts, memfault census == 0, ASan/UBSan/LSan. quick ~1.9e3 cases; thorough "
-                "~9.6e4 random + every byte offset of the small exchanges (~3.5e4). Held-on-observed.",
+                "counts and ordering from the trace, wire-level response counts, memfault census == 0, ASan/UBSan/LSan. quick ~1.3e3 cases; thorough "
+                "~6.4e4 random + every byte offset of request and response of the small exchanges (1.3e4 cases). Held-on-observed.",
            note="fault points are byte offsets as seen by the peer, user actions only at the callback points named in assumptions; trusts kernel loopback semantics",
            technique="trace oracle (exactly-once counting) + allocation census + sanitizers over enumerated peer faults")
